@@ -218,7 +218,7 @@ End Cow.
 
 (* ------------------------------------------------------------------ *)
 (** * Leaf attributes (scalar or scalar collection), flat receivers *)
-Definition leaf_scalar (sp : attr_spec) : Prop := scalar_ty (a_ty sp) = true /\ a_prepare sp = None.
+Definition leaf_scalar (sp : attr_spec) : Prop := scalar_ty (a_ty sp) = true /\ oqfn (a_prepare sp).
 Definition leaf_attr (sp : attr_spec) : Prop := (exists fam, leaf_coll sp fam) \/ leaf_scalar sp.
 
 Section CowOps.
@@ -235,8 +235,9 @@ Section CowOps.
                 (match a_prepare sp with Some f => PAttr f | None => PNone end)
                 None (Some (ctor_of_ty (a_ty sp))) (Some (a_ty sp)) None [] false).
   Proof.
-    intros (Sc & Hp). unfold mv_plain. simpl. rewrite Hp.
-    split; [exact I|]. split; auto. split; auto. split; auto.
+    intros (Sc & Hp). unfold mv_plain.
+    cbn [mv_prepare mv_attrs mv_transform mv_attr_transforms mv_ctor mv_expected xf_plain].
+    split; [destruct (a_prepare sp); simpl; auto|]. split; auto. split; auto. split; auto.
     exists (a_ty sp), (a_ty sp). unfold ctor_of_ty. destruct (scalar_nospec _ Sc) as [-> _].
     split; auto. split; auto. destruct (a_ty sp); simpl in *; auto; discriminate.
   Qed.
